@@ -352,8 +352,12 @@ func (p *asyncProducer) dispatcher() {
 			p.inFlight.Add(1)
 		}
 
-		for _, interceptor := range p.conf.Producer.Interceptors {
-			msg.safelyApplyInterceptor(interceptor)
+		if msg.retries == 0 && msg.flags == 0 {
+			// first pass of an application message only: retried messages have been intercepted
+			// already and internal markers (fin) are not the application's
+			for _, interceptor := range p.conf.Producer.Interceptors {
+				msg.safelyApplyInterceptor(interceptor)
+			}
 		}
 
 		version := 1
